@@ -33,6 +33,10 @@ def _grid(tier):
                     if nq == 3 and tier == 'quick' and not (ns == 1 and k == 2 and list(meas) == [0, 1]):
                         continue
                     out.append({'nq': nq, 'ranks': ranks, 'measure': list(meas), 'ns': ns})
+    # mixed dtypes per core (a real state with complex single-qubit gates on later sites), site 0 measured or not
+    for mask in ('last', 'inner'):
+        out.append({'nq': 2, 'ranks': [1, 2, 1], 'measure': [1], 'ns': 1, 'cplx': mask})
+        out.append({'nq': 3, 'ranks': [1, 2, 2, 1], 'measure': [1, 2], 'ns': 1, 'cplx': mask})
     return out
 
 
@@ -78,18 +82,18 @@ def _dense_inverse_cdf(amp, measure, u):
 
 
 @scenario('C20', 'sampling', _grid)
-def sampling(ctx, nq, ranks, measure, ns):
+def sampling(ctx, nq, ranks, measure, ns, cplx=True):
     """every outcome path == inverse-CDF sampling from the exact conditional probabilities; distinct rows; frequencies sum to one"""
     TT, qc = ctx.R.TT, ctx.R.qc
     if ctx.mode == 'tv':
         raise SkipTV()
     s = {'rows': [2] * nq, 'cols': [1] * nq, 'ranks': ranks}
-    cores = mk_cores(ctx, 'psi', s, True)
+    cores = mk_cores(ctx, 'psi', s, cplx)
     k = len(measure)
     label = 'samples are generated by inverse-CDF sampling from the exact conditional Born probabilities'
     if not ctx.sym:
         # concrete replay: right-orthonormalise and normalise a random state, fix the uniforms, compare with the dense oracle
-        psi = TT(mk_cores(ctx, 'psi', s, True))
+        psi = TT(mk_cores(ctx, 'psi', s, cplx))
         psi.ortho_right()
         psi = psi * (1 / psi.norm())
         nsc = 400                       # the claim is per sample: the concrete run uses many uniforms so that a wrong conditional flips some outcome
@@ -113,7 +117,7 @@ def sampling(ctx, nq, ranks, measure, ns):
         for a in ctx.assumptions:
             ex.assume(a)
         lapack.set_policy(lapack.FreePolicy())
-        psi = TT(mk_cores(ctx, 'psi', s, True))
+        psi = TT(mk_cores(ctx, 'psi', s, cplx))
         samples, probs = qc.sampling(psi, list(measure), ns)
         draws = [c for c in state.S.stub_log if c.kind == 'rand']
         ctx.check('one block of uniforms of shape (number_of_samples, measured sites)', len(draws) == 1 and tuple(draws[0].r.shape) == (ns, k))
